@@ -36,7 +36,8 @@ type Edit struct {
 	UserAgent string   `json:"user_agent"`
 	Headers   []string `json:"headers"`
 	Uris      []string `json:"uris"`
-	What      string   `json:"what"` // what the generator changed (label only)
+	Proxy     bool     `json:"proxy"` // the form's "proxy enabled" box (ListenerEdit assigns Config.Proxy)
+	What      string   `json:"what"`  // what the generator changed (label only)
 }
 
 type Op struct {
@@ -104,7 +105,7 @@ func applicableEdits(c Cfg) []string {
 			out = append(out, "uris-remove-one", "uris-remove-one")
 		}
 	}
-	out = append(out, "ua-toggle")
+	out = append(out, "ua-toggle", "proxy-toggle")
 	if c.UserAgent != "" {
 		out = append(out, "ua-change")
 	}
@@ -121,7 +122,7 @@ func applicableEdits(c Cfg) []string {
 
 func genEdit(t *rapid.T, cur Cfg) Edit {
 	// the edit dialog sends the whole form: start from what is configured
-	e := Edit{UserAgent: cur.UserAgent, Headers: append([]string(nil), cur.Headers...), Uris: append([]string(nil), effectiveUris(cur)...)}
+	e := Edit{UserAgent: cur.UserAgent, Headers: append([]string(nil), cur.Headers...), Uris: append([]string(nil), effectiveUris(cur)...), Proxy: cur.ProxyEnabled}
 	n := 1
 	if rapid.IntRange(0, 3).Draw(t, "two-fields") == 0 {
 		n = 2
@@ -160,6 +161,8 @@ func genEdit(t *rapid.T, cur Cfg) Edit {
 			} else {
 				e.UserAgent = ""
 			}
+		case "proxy-toggle":
+			e.Proxy = !e.Proxy
 		case "ua-change":
 			e.UserAgent = e.UserAgent + " v2"
 		case "headers-empty":
@@ -198,6 +201,13 @@ func applyEdit(c Cfg, e Edit) Cfg {
 	c.UserAgent = e.UserAgent
 	c.Headers = append([]string(nil), e.Headers...)
 	c.Uris = append([]string(nil), e.Uris...)
+	if e.Proxy != c.ProxyEnabled {
+		c.ProxyEnabled = e.Proxy
+		c.ProxyType, c.ProxyHost, c.ProxyPort, c.ProxyUser, c.ProxyPass = "", "", "", "", ""
+		if e.Proxy {
+			c.ProxyType, c.ProxyHost, c.ProxyPort = "http", "proxy.corp.example", "8080"
+		}
+	}
 	return c
 }
 
@@ -217,8 +227,10 @@ func genH(t *rapid.T) CaseH {
 	c.Cfg.Headers = noListSep(c.Cfg.Headers)
 	c.Cfg.Uris = effectiveUris(c.Cfg) // the [""] form cannot be sent by an operator; (a) covers it
 	c.Start = rapid.SampledFrom([]string{"operator-add", "operator-add", "profile-start"}).Draw(t, "start")
+	c.Cfg.Secure = false // (a) starts TLS listeners; a history would pay the key generation for nothing
 	if c.Start == "operator-add" {
 		c.Cfg.RespHeaders = nil
+		c.Cfg.KillDate, c.Cfg.WorkingHours, c.Cfg.Methode = 0, "", "" // not part of what dispatch.go's Add branch takes over
 	}
 	cur, prev := c.Cfg, c.Cfg
 	idx := 0
@@ -249,26 +261,28 @@ func genH(t *rapid.T) CaseH {
 
 // profileConfigOf: what teamserver.go builds for an HTTP listener of the profile
 // (BehindRedir from Demon.TrustXForwardedFor, response headers from the listener block).
-func profileConfigOf(c Cfg) handlers.HTTPConfig {
-	hc := handlers.HTTPConfig{
-		Name: "c12h", Hosts: []string{"127.0.0.1"}, HostBind: "127.0.0.1", PortBind: "0", HostRotation: "round-robin",
-		BehindRedir: c.BehindRedir, UserAgent: c.UserAgent,
-		Headers: append([]string(nil), c.Headers...), Uris: append([]string(nil), c.Uris...),
-	}
-	hc.Response.Headers = append([]string(nil), c.RespHeaders...)
-	return hc
-}
+func profileConfigOf(c Cfg) handlers.HTTPConfig { return httpConfigFull(c, "c12h") }
 
 // operatorInfo is the Info map of the client's Listener.Add / Listener.Edit package for
 // an HTTP listener (the keys cmd/server/dispatch.go reads; all values are strings, lists
 // joined with ", ").
 func operatorInfo(c Cfg) map[string]any {
-	return map[string]any{
-		"Name": "c12h", "Protocol": handlers.AGENT_HTTP, "Status": "online", "Secure": "false",
-		"Hosts": "127.0.0.1", "HostBind": "127.0.0.1", "HostRotation": "round-robin", "PortBind": "0", "PortConn": "",
-		"Headers": strings.Join(c.Headers, ", "), "Uris": strings.Join(c.Uris, ", "),
-		"UserAgent": c.UserAgent, "HostHeader": "", "Proxy Enabled": "false",
+	hosts := c.Hosts
+	if len(hosts) == 0 {
+		hosts = []string{"127.0.0.1"}
 	}
+	m := map[string]any{
+		"Name": "c12h", "Protocol": handlers.AGENT_HTTP, "Status": "online", "Secure": "false",
+		"Hosts": strings.Join(hosts, ", "), "HostBind": "127.0.0.1", "HostRotation": c.HostRotation, "PortBind": "0", "PortConn": c.PortConn,
+		"Headers": strings.Join(c.Headers, ", "), "Uris": strings.Join(c.Uris, ", "),
+		"UserAgent": c.UserAgent, "HostHeader": c.HostHeader, "Proxy Enabled": "false",
+	}
+	if c.ProxyEnabled {
+		m["Proxy Enabled"] = "true"
+		m["Proxy Type"], m["Proxy Host"], m["Proxy Port"] = c.ProxyType, c.ProxyHost, c.ProxyPort
+		m["Proxy Username"], m["Proxy Password"] = c.ProxyUser, c.ProxyPass
+	}
+	return m
 }
 
 // operate feeds one operator package to the teamserver the way handleRequest does after
@@ -466,7 +480,12 @@ func classifyH(c CaseH) core.Class {
 			xffAfterEdit = true
 		}
 	}
-	cl.Labels = append(cl.Labels, "start:"+c.Start, fmt.Sprintf("trust-xff:%v", c.Cfg.BehindRedir))
+	cl.Labels = append(cl.Labels, "start:"+c.Start, fmt.Sprintf("trust-xff:%v", c.Cfg.BehindRedir), "hostheader-config:"+hostHeaderClass(c.Cfg))
+	for _, op := range c.Ops {
+		if op.Req != nil {
+			cl.Labels = append(cl.Labels, "request-host:"+op.Req.HostClass)
+		}
+	}
 	if xffAfterEdit {
 		cl.Labels = append(cl.Labels, fmt.Sprintf("post-with-xff-after-edit|trust-xff:%v", c.Cfg.BehindRedir))
 	}
